@@ -99,6 +99,14 @@ func observe(f univ.Flavor, in []byte, nonMinimal bool) string {
 		}
 		cl := proto.Clone(m.Interface())
 		sb.WriteString("|clone=" + univ.SnapshotNorm(cl.ProtoReflect()))
+		// Equal against the re-decoded deterministic bytes and against the empty
+		// message, in both argument orders (stored-but-empty composites, unknown
+		// fields and NaN make these more than reflexivity)
+		if m2, err := f.Unmarshal(b, proto.UnmarshalOptions{AllowPartial: true, NoLazyDecoding: true}); err == nil {
+			e := f.MT.New().Interface()
+			fmt.Fprintf(&sb, "|eq(m,redecoded)=%v,%v|eq(m,clone)=%v,%v|eq(m,empty)=%v,%v", proto.Equal(m.Interface(), m2.Interface()), proto.Equal(m2.Interface(), m.Interface()),
+				proto.Equal(m.Interface(), cl), proto.Equal(cl, m.Interface()), proto.Equal(m.Interface(), e), proto.Equal(e, m.Interface()))
+		}
 	}()
 	return sb.String()
 }
@@ -137,7 +145,7 @@ func forPlan(c *core.Ctx, p plan, withDyn bool, emit func(i int, name string, ge
 	md := g.MT.Descriptor()
 	recs := univ.WireAlphabet(md, univ.WireOpt{Small: p.small, Depth: 1})
 	nw := univ.TupleCount(len(recs), p.wireN)
-	alpha := univ.Alphabet(md, p.depth, univ.Opt{Thin: p.thin})
+	alpha := univ.Alphabet(md, p.depth, univ.Opt{Thin: p.thin, EmptyComposite: p.pairs})
 	nm := univ.TupleCount(len(alpha), p.k)
 	np := 0
 	if p.pairs {
@@ -240,7 +248,7 @@ func runDigest(c *core.Ctx) {
 }
 
 func run(c *core.Ctx) {
-	c.Rule = "cases = all sequences of <=n wire records, all encodings of <=k-slot messages, and all ordered pairs of single-slot messages (Equal / Merge) per type. Each case yields a canonical result record (Unmarshal verdict with and without AllowPartial, decoded content with unknown tags normalised, CheckInitialized verdict, Size, deterministic bytes, Clone content; for pairs: Equal, merged content, bytes). The record of the generated fast path must equal (i) that of dynamicpb over the same descriptor in this process and (ii) that of the same generated type in a -tags protoreflect build of the harness (digest exchanged per enumeration index, failing case re-derived from its index)"
+	c.Rule = "cases = all sequences of <=n wire records, all encodings of <=k-slot messages, and all ordered pairs of single-slot messages (Equal / Merge) per type. Each case yields a canonical result record (Unmarshal verdict with and without AllowPartial, decoded content with unknown tags normalised, CheckInitialized verdict, Size, deterministic bytes, Clone content, Equal with the re-decoded bytes / the clone / the empty message in both argument orders; slots include stored-but-empty lists and maps (extensions too); for pairs: Equal, merged content, bytes). The record of the generated fast path must equal (i) that of dynamicpb over the same descriptor in this process and (ii) that of the same generated type in a -tags protoreflect build of the harness (digest exchanged per enumeration index, failing case re-derived from its index)"
 	c.Exhaustive = true
 	// (ii) start the protoreflect binary in parallel
 	bin := filepath.Join(os.Getenv("VERIF_BIN"), "verifmc-reflect")
